@@ -7,10 +7,10 @@ import RimuProofs.Lemmas.ExtInline
 namespace Rimu
 open Py
 
-theorem RecExt.rfl' (rec : Rec) : RecExt rec rec := ⟨fun _ => Ext.refl _, fun _ => Ext.refl _⟩
+theorem RecExt.rfl' (rec : Rec) : RecExt rec rec := ⟨fun _ => Ext.refl _, fun _ _ => Ext.refl _⟩
 
 theorem RecExt.trans {a b c : Rec} (h1 : RecExt a b) (h2 : RecExt b c) : RecExt a c :=
-  ⟨fun x => (h1.spans x).trans (h2.spans x), fun x => (h1.document x).trans (h2.document x)⟩
+  ⟨fun x => (h1.spans x).trans (h2.spans x), fun d x => (h1.document d x).trans (h2.document d x)⟩
 
 section
 variable {rec rec' : Rec} (hr : RecExt rec rec') (env : Env)
@@ -117,8 +117,8 @@ theorem documentLoop_ext (n : Nat) (r : Reader) (w : Writer) :
   | zero => rw [documentLoop]; exact Ext.of_fuel _
   | succ n ih => rw [documentLoop, documentLoop]; ext_go
 
-theorem documentRender_ext (n : Nat) (t : Str) :
-    Ext (documentRender rec env n t) (documentRender rec' env (n+1) t) := by
+theorem documentRender_ext (n : Nat) (t : Str) (d : Nat) :
+    Ext (documentRender rec env n t d) (documentRender rec' env (n+1) t d) := by
   have h := documentLoop_ext hr env
   unfold documentRender; ext_go
 
@@ -126,9 +126,9 @@ end
 
 theorem mkRec_ext (env : Env) (n : Nat) : RecExt (mkRec env n) (mkRec env (n+1)) := by
   induction n with
-  | zero => exact ⟨fun _ => Ext.of_fuel _, fun _ => Ext.of_fuel _⟩
+  | zero => exact ⟨fun _ => Ext.of_fuel _, fun _ _ => Ext.of_fuel _⟩
   | succ n ih =>
-    exact ⟨fun x => spansRender_ext ih env x, fun x => documentRender_ext ih env (n+1) x⟩
+    exact ⟨fun x => spansRender_ext ih env x, fun d x => documentRender_ext ih env (n+1) x d⟩
 
 theorem mkRec_ext_le (env : Env) {n m : Nat} (h : n ≤ m) : RecExt (mkRec env n) (mkRec env m) := by
   induction h with
